@@ -262,7 +262,10 @@ fn deviation_is_known(key: &str, a: &Ontology, b: &Ontology, da: &[String], db: 
 const K3_OBO: &str = "format-version: 1.2\ndata-version: hp/releases/0000-00-00\n\n[Term]\nid: HP:0000001\nname: All\n\n[Term]\nid: HP:0000118\nname: Phenotypic abnormality\nis_a: HP:0000001 ! All\n\n[Term]\nid: HP:0000002\nname: obsolete Old\nis_obsolete: true\nreplaced_by: HP:0000000\n";
 
 fn k3_onto() -> Option<Ontology> {
-    let dir = std::env::temp_dir().join(format!("hpo_k3_{}_{:?}", std::process::id(), std::thread::current().id()));
+    let dir = std::path::Path::new(env!("CARGO_MANIFEST_DIR"))
+        .join("target")
+        .join("tmp")
+        .join(format!("hpo_k3_{}_{:?}", std::process::id(), std::thread::current().id()));
     std::fs::create_dir_all(&dir).ok()?;
     std::fs::write(dir.join("hp.obo"), K3_OBO).ok()?;
     std::fs::write(dir.join("genes_to_phenotype.txt"), "ncbi_gene_id\tgene_symbol\thpo_id\thpo_name\n").ok()?;
